@@ -6,6 +6,15 @@
 //! big limit (10^6 quick, 10^7 thorough) is compared element by element against an independent plain
 //! sieve of Eratosthenes (not a linear sieve), including `factorize(n)` for every n <= N.
 //!
+//! The constructor is NOT assumed to be a pure function of N: what a thread has constructed before is part
+//! of the case.  Every construction happens on a dedicated thread whose construction history is known —
+//! "solo" (each limit is the first construction of a fresh thread) and four explicit schedules, each run on
+//! one fresh thread with the full comparison after every construction: ascending 0..=Nmax, descending
+//! Nmax..=0, "big first" (the largest big limit, then the other big limits, then every small limit) and
+//! alternating 0, Nmax, 1, Nmax-1, ….  A violation's replay carries the shortest history that reproduces
+//! it on a fresh thread (found by trying: none, N+1, the recorded predecessor, the largest limit, the whole
+//! recorded prefix), and `confirm` re-executes that history on a fresh thread before the case itself.
+//!
 //! `factorize` divides by table entries in a loop; on a broken table that can divide by zero (a panic,
 //! caught) or spin forever.  It is therefore only called for a sieve whose `min_prime(m)` has already been
 //! verified for every 2 <= m <= N (otherwise the min_prime violation is the verdict for that N), never
@@ -187,6 +196,8 @@ fn check_factorize(s: &Sieve, n: usize, expected: &[(i32, i32)]) -> Result<(), S
 #[derive(Clone, Debug)]
 struct Fail {
     family: &'static str,
+    limit: usize,
+    n: Option<usize>,
     signature: String,
     summary: String,
     replay: Value,
@@ -199,6 +210,8 @@ fn fail(family: &'static str, limit: usize, n: Option<usize>, key: &str, summary
     };
     Fail {
         family,
+        limit,
+        n,
         signature,
         summary: format!("Sieve::new({limit}): {summary}"),
         replay: json!({"family": family, "N": limit, "n": n, "reference": reference}),
@@ -343,7 +356,9 @@ fn check_small_limit(limit: usize, r: &SmallRef) -> Outcome {
 
 // ───────────────────────────── big limit: element by element against Eratosthenes ─────────────────────────────
 
-fn check_big_limit(limit: usize, spf: &[u32]) -> Outcome {
+/// `parallel`: the queries are spread over the rayon pool (the sieve is constructed on the calling thread
+/// either way); inside a schedule everything stays on the schedule's own thread.
+fn check_big_limit(limit: usize, spf: &[u32], parallel: bool) -> Outcome {
     let mut o = Outcome::default();
     o.c.news = 1;
     let s = match catch(|| Sieve::new(limit)) {
@@ -355,9 +370,7 @@ fn check_big_limit(limit: usize, spf: &[u32]) -> Outcome {
     };
     let starts: Vec<usize> = (0..=limit).step_by(CHUNK).collect();
     // pass 1: is_prime, min_prime
-    let parts: Vec<Outcome> = starts
-        .par_iter()
-        .map(|&a| {
+    let pass1 = |&a: &usize| {
             let mut o = Outcome::default();
             for n in a..(a + CHUNK).min(limit + 1) {
                 o.c.pairs += 1;
@@ -376,8 +389,8 @@ fn check_big_limit(limit: usize, spf: &[u32]) -> Outcome {
                 }
             }
             o
-        })
-        .collect();
+    };
+    let parts: Vec<Outcome> = if parallel { starts.par_iter().map(pass1).collect() } else { starts.iter().map(pass1).collect() };
     for p in parts {
         // chunks are in ascending order of n, so the first failure kept per family is the smallest n
         o.c.merge(&p.c);
@@ -399,9 +412,7 @@ fn check_big_limit(limit: usize, spf: &[u32]) -> Outcome {
     } else if !factorize_cannot_spin(&s) {
         o.c.factorize_skipped_table_could_spin += 1;
     } else {
-        let parts: Vec<Outcome> = starts
-            .par_iter()
-            .map(|&a| {
+        let pass2 = |&a: &usize| {
                 let mut o = Outcome::default();
                 let mut buf = Vec::with_capacity(16);
                 for n in a.max(1)..(a + CHUNK).min(limit + 1) {
@@ -416,8 +427,8 @@ fn check_big_limit(limit: usize, spf: &[u32]) -> Outcome {
                     }
                 }
                 o
-            })
-            .collect();
+        };
+        let parts: Vec<Outcome> = if parallel { starts.par_iter().map(pass2).collect() } else { starts.iter().map(pass2).collect() };
         for p in parts {
             o.c.merge(&p.c);
             for f in p.fails {
@@ -428,9 +439,183 @@ fn check_big_limit(limit: usize, spf: &[u32]) -> Outcome {
     o
 }
 
+// ───────────────────────────── construction histories ─────────────────────────────
+
+/// One construction on a thread.  `compare`: the full comparison (every query) is run on the sieve before
+/// it is dropped; otherwise it is only constructed and dropped (a warm-up).
+#[derive(Clone, Copy, PartialEq, Eq, Debug)]
+struct Step {
+    limit: usize,
+    compare: bool,
+}
+
+fn warm_up(limit: usize) -> Step {
+    Step { limit, compare: false }
+}
+
+fn compared(limit: usize) -> Step {
+    Step { limit, compare: true }
+}
+
+fn steps_json(h: &[Step]) -> Value {
+    Value::Array(h.iter().map(|s| json!({"N": s.limit, "compare": s.compare})).collect())
+}
+
+fn steps_parse(v: &Value) -> Result<Vec<Step>, String> {
+    match v {
+        Value::Null => Ok(vec![]),
+        Value::Array(a) => a
+            .iter()
+            .map(|e| Ok(Step { limit: e["N"].as_u64().ok_or("replay: history entry without N")? as usize, compare: e["compare"].as_bool().unwrap_or(false) }))
+            .collect(),
+        _ => Err("replay: history is not a list".into()),
+    }
+}
+
+/// Run `f` on a thread created for it (thread-local state of the code under test starts empty there).
+fn on_fresh_thread<R: Send>(f: impl FnOnce() -> R + Send) -> R {
+    std::thread::scope(|s| s.spawn(f).join()).unwrap_or_else(|_| {
+        println!("MACHINERY-FAILURE engine=sieve a harness thread panicked outside the code under test");
+        eprintln!("MACHINERY-FAILURE engine=sieve a harness thread panicked outside the code under test");
+        std::process::exit(2)
+    })
+}
+
+/// Limits up to this bound are compared with trial division, larger ones with the Eratosthenes table.
+const TRIAL_MAX: usize = 1 << 16;
+
+/// The references a sequence of steps needs: trial division up to `small` (at most TRIAL_MAX), Eratosthenes up to `big`.
+struct Refs {
+    small: SmallRef,
+    spf: Vec<u32>,
+}
+
+impl Refs {
+    fn for_steps(h: &[Step]) -> Refs {
+        let cmp = || h.iter().filter(|s| s.compare).map(|s| s.limit);
+        let small = cmp().filter(|&l| l <= TRIAL_MAX).max().unwrap_or(0);
+        let big = cmp().filter(|&l| l > TRIAL_MAX).max();
+        Refs { small: small_reference(small), spf: big.map_or(vec![], spf_eratosthenes) }
+    }
+    fn covers(&self, limit: usize) -> bool {
+        limit < self.small.lpf.len()
+    }
+}
+
+/// One step on the CURRENT thread: construct, compare if the step says so (sequentially, on this thread), drop.
+fn exercise(st: Step, refs: &Refs) -> Outcome {
+    if !st.compare {
+        let _ = catch(|| Sieve::new(st.limit)); // a panic here is the verdict of that limit's own solo case
+        return Outcome::default();
+    }
+    if refs.covers(st.limit) {
+        check_small_limit(st.limit, &refs.small)
+    } else {
+        check_big_limit(st.limit, &refs.spf, false)
+    }
+}
+
+struct Schedule {
+    name: &'static str,
+    steps: Vec<Step>,
+}
+
+/// The explicit construction orders; each is run from start to end on one fresh thread.
+fn schedules(max_small: usize, bigs: &[usize]) -> Vec<Schedule> {
+    let ascending: Vec<Step> = (0..=max_small).map(compared).collect();
+    let descending: Vec<Step> = ascending.iter().rev().copied().collect();
+    let mut big_first = vec![warm_up(*bigs.last().unwrap())];
+    big_first.extend(bigs.iter().rev().skip(1).map(|&b| compared(b)));
+    big_first.extend(ascending.iter().copied());
+    let mut alternating = vec![];
+    let (mut lo, mut hi) = (0, max_small);
+    while lo < hi {
+        alternating.push(compared(lo));
+        alternating.push(compared(hi));
+        lo += 1;
+        hi -= 1;
+    }
+    if lo == hi {
+        alternating.push(compared(lo));
+    }
+    vec![
+        Schedule { name: "ascending", steps: ascending },
+        Schedule { name: "descending", steps: descending },
+        Schedule { name: "big_first", steps: big_first },
+        Schedule { name: "alternating", steps: alternating },
+    ]
+}
+
+/// Where a failure was observed: after `prefix` had been executed on the same fresh thread.
+struct Located<'a> {
+    order: usize, // 0 = solo, 1.. = index of the schedule + 1
+    prefix: &'a [Step],
+    fail: Fail,
+}
+
+/// Does the recorded case fail when `history` and then the case are executed on a fresh thread?
+fn reproduces_after(history: &[Step], case: &Value, refs: &Refs) -> bool {
+    on_fresh_thread(|| {
+        for &st in history {
+            exercise(st, refs);
+        }
+        confirm_case(case).is_err()
+    })
+}
+
+/// The shortest history (tried in a fixed order) after which the failure shows on a fresh thread; the whole
+/// recorded prefix if none of the shorter ones does.
+fn minimal_history(l: &Located, largest: usize, refs: &Refs) -> Vec<Step> {
+    let mut candidates: Vec<Vec<Step>> = vec![vec![], vec![warm_up(l.fail.limit + 1)]];
+    if let Some(&p) = l.prefix.last() {
+        candidates.push(vec![p]);
+    }
+    if largest > l.fail.limit {
+        candidates.push(vec![warm_up(largest)]);
+    }
+    candidates.into_iter().find(|c| reproduces_after(c, &l.fail.replay, refs)).unwrap_or_else(|| l.prefix.to_vec())
+}
+
+fn history_text(h: &[Step]) -> String {
+    let one = |s: &Step| s.limit.to_string();
+    if h.len() <= 3 {
+        h.iter().map(one).collect::<Vec<_>>().join(",")
+    } else {
+        format!("{},{},..,{}(x{})", one(&h[0]), one(&h[1]), one(&h[h.len() - 1]), h.len())
+    }
+}
+
+/// Attach the history to a failure: replay, signature and summary.
+fn with_history(mut f: Fail, h: &[Step]) -> Fail {
+    f.replay["history"] = steps_json(h);
+    if !h.is_empty() {
+        f.signature = format!("{},after=[{}]", f.signature, history_text(h));
+        f.summary = format!(
+            "on a thread that had constructed Sieve::new for the limits [{}] before (in that order, each dropped before the next) — {}",
+            history_text(h),
+            f.summary
+        );
+    }
+    f
+}
+
 // ───────────────────────────── replay: one recorded case, no enumeration ─────────────────────────────
 
+/// The recorded history and then the recorded case, on a thread created for this call.
 fn confirm(v: &Value) -> Result<(), String> {
+    let history = steps_parse(&v["history"])?;
+    let refs = Refs::for_steps(&history);
+    on_fresh_thread(|| {
+        for &st in &history {
+            exercise(st, &refs);
+        }
+        confirm_case(v)
+    })
+    .map_err(|m| if history.is_empty() { m } else { format!("after constructing the limits [{}] on the same thread: {m}", history_text(&history)) })
+}
+
+/// One construction and one comparison on the current thread.
+fn confirm_case(v: &Value) -> Result<(), String> {
     let family = v["family"].as_str().ok_or("replay: no family")?.to_string();
     let limit = v["N"].as_u64().ok_or("replay: no N")? as usize;
     let wrap = |m: String| format!("Sieve::new({limit}): {m}");
